@@ -27,15 +27,48 @@ def assumed_fns(unit_results):
     return out
 
 
+_VALIDATION_CACHE = {}
+
+
+def validated_elsewhere(name, unit_results):
+    """True when the function `name` (and every closure of it) is under contract in props.VALIDATED_BY[name] and all
+    of its obligations are discharged there on the current text"""
+    v = props.VALIDATED_BY.get(name)
+    if not v:
+        return False
+    res = unit_results.get(v) or _VALIDATION_CACHE.get(v)
+    if res is None:
+        try:
+            res = zv.run_unit_portfolio(v)
+        except zv.Undecided:
+            return False
+        _VALIDATION_CACHE[v] = res
+    if res.refused or res.compile_error:
+        return False
+    mine = [it for it in res.items if it["kind"] == "fn" and "ASSUMED" not in it.get("rules", []) and (it["name"] == name or it["name"].startswith(name + "#"))]
+    if not any(it["name"] == name for it in mine):
+        return False
+    for d in res.diags:
+        if d.get("kind") not in ("verification", "rlimit"):
+            continue
+        it = item_of_line(res, d.get("primary_line") or 0)
+        if it is not None and it in mine:
+            return False
+    return True
+
+
 def check_assumed(unit_results):
     """the body of an assumed function is outside every contract: when its text differs from the committed
-    fingerprint its assumed contract has not been re-validated -> undecided (never an alarm)"""
+    fingerprint its assumed contract has not been re-validated -> undecided (never an alarm) - unless another
+    unit verifies that body (props.VALIDATED_BY) and does so successfully on the current text"""
     base = load_json(ASSUMED, {})
     bad = []
     for unit, fns in assumed_fns(unit_results).items():
         for name, fp in fns.items():
             want = base.get(unit, {}).get(name)
             if want is not None and want != fp:
+                if validated_elsewhere(name, unit_results):
+                    continue
                 bad.append("%s: the text of assumed function %s changed; its assumed contract is not re-validated by any obligation" % (unit, name))
     return bad
 
